@@ -365,6 +365,79 @@ def _r3_block(inner: str, log: list) -> str:
     return inner
 
 
+def _strip_nested_loops(s: str) -> str:
+    """text of s with the bodies of nested loops and closures blanked (a `continue` there belongs to that loop)"""
+    out = s
+    pos = 0
+    while True:
+        m = re.search(r'\b(for\b[^{;]*?\bin\b|while\b|loop\b)|\|[^|{};]*\|\s*(?=\{)', out[pos:])
+        if not m:
+            return out
+        i = pos + m.end()
+        while i < len(out) and out[i] != '{':
+            if out[i] in '([':
+                i = match_brace(out, i)
+            if out[i] == ';':
+                break
+            i += 1
+        if i >= len(out) or out[i] != '{':
+            pos = pos + m.end()
+            continue
+        j = match_brace(out, i)
+        out = out[:i + 1] + ' ' * (j - i - 1) + out[j:]
+        pos = j
+
+
+def _has_own_continue(s: str) -> bool:
+    return re.search(r'\bcontinue\b', _strip_nested_loops(s)) is not None
+
+
+def _r3_flag_stmt(s: str, flag: str, log: list) -> str:
+    """rewrite the `continue`s of ONE statement: `continue;` -> `FLAG = true;`, nested blocks (if / else / match arms / bare blocks) recursively"""
+    st = s.strip()
+    if re.fullmatch(r'continue\s*;', st):
+        return f' {flag} = true; '
+    if re.match(r'(for|while|loop)\b', st):
+        return s
+    out, i = '', 0
+    blanked = _strip_nested_loops(s)
+    while i < len(s):
+        c = s[i]
+        if c == '{' and blanked[i] == '{':
+            j = match_brace(s, i)
+            inner = s[i + 1:j]
+            if _has_own_continue(inner):
+                head = s[:i].rstrip()
+                if re.search(r'\bmatch\b[^{};]*$', head) and not re.search(r'=>\s*$', head):
+                    # a match body: arms `P => continue,` and `P => { .. }`
+                    inner2 = re.sub(r'=>\s*continue\s*,', f'=> {{ {flag} = true; }}', inner)
+                    inner2 = _r3_flag_stmt(inner2, flag, log) if _has_own_continue(inner2) else inner2
+                    out += '{' + inner2 + '}'
+                else:
+                    out += '{' + _r3_flag_block(inner, flag, log) + '}'
+            else:
+                out += s[i:j + 1]
+            i = j + 1
+            continue
+        out += c
+        i += 1
+    return out
+
+
+def _r3_flag_block(inner: str, flag: str, log: list) -> str:
+    stmts = _split_stmts(inner)
+    for k, st in enumerate(stmts):
+        if not _has_own_continue(st):
+            continue
+        s2 = _r3_flag_stmt(st, flag, log)
+        rest = ''.join(stmts[k + 1:])
+        tail = ''
+        if rest.strip():
+            tail = f' if !{flag} {{ ' + _r3_flag_block(rest, flag, log) + ' } '
+        return ''.join(stmts[:k]) + s2 + tail
+    return inner
+
+
 def normalize_continue(body: str, log: list) -> str:
     """apply R3 to every `for` loop body in the function body"""
     out = body
@@ -385,5 +458,10 @@ def normalize_continue(body: str, log: list) -> str:
         inner = out[i + 1:j]
         if 'continue' in inner:
             new_inner = _r3_block(inner, log)
+            if _has_own_continue(new_inner):
+                # R3b (general): a `continue` nested in if / else / match arms -> skip flag; everything after a statement that may set it runs under `if !flag`
+                flag = 'skip_'
+                new_inner = f' let mut {flag} = false; ' + _r3_flag_block(new_inner, flag, log)
+                log.append(('R3', 'nested `continue` -> `skip_ = true;` + the statements after it guarded by `if !skip_ { .. }`'))
             out = out[:i + 1] + new_inner + out[j:]
         pos = i + 1
